@@ -14,6 +14,11 @@ Extracted from the AST of glom/*.py (current source):
     module-level singletons and spec classes (anything with `glomit`); `arg_val` builds a fresh
     `_ArgValuator` per call; `bbrepr` is `recursive_repr()(…)` (reprlib's guard is keyed by thread) and
     the guard `_BBRepr.repr1` keeps on the shared instance is keyed by `(id(x), get_ident())`;
+  * `_ArgValuator.mode` executed abstractly for an argument of each container type (tests that
+    `type(spec)` decides are decided, every other test is explored both ways): where what it returns
+    can come from (`fresh`: a container built by this call; `cache`: the cache entry for the
+    argument; `spec`: the argument itself, i.e. the literal inside the shared spec) and what it
+    stores in `self.cache`;
   * the dict literal `glom()` passes to `_DEFAULT_SCOPE.new_child` (key → how the value is
     built) and the one `_glom` passes to `scope.new_child`;
   * which attributes of `self` the registry methods on the evaluation path write;
@@ -426,6 +431,140 @@ def reentry_resets(fn, qual, P):
     return out
 
 
+# ---- `_ArgValuator.mode`, abstractly executed for each container type ---------------------------
+
+ARG_KINDS = ['list', 'dict', 'set', 'tuple', 'frozenset']
+
+
+def _known_test(test, kind):
+    """True / False when the test is decided by `type(spec)` alone, None otherwise"""
+    def type_of_spec(n):
+        return isinstance(n, ast.Call) and ast.unparse(n) == 'type(spec)'
+
+    def names(n):
+        if isinstance(n, (ast.Tuple, ast.List, ast.Set)):
+            out = []
+            for e in n.elts:
+                if not isinstance(e, ast.Name):
+                    return None
+                out.append(e.id)
+            return out
+        if isinstance(n, ast.Name):
+            return [n.id]
+        return None
+    if isinstance(test, ast.UnaryOp) and isinstance(test.op, ast.Not):
+        v = _known_test(test.operand, kind)
+        return None if v is None else (not v)
+    if isinstance(test, ast.BoolOp):
+        vs = [_known_test(v, kind) for v in test.values]
+        if isinstance(test.op, ast.And):
+            if any(v is False for v in vs):
+                return False
+            return True if all(v is True for v in vs) else None
+        if any(v is True for v in vs):
+            return True
+        return False if all(v is False for v in vs) else None
+    if isinstance(test, ast.Compare) and len(test.ops) == 1 and type_of_spec(test.left):
+        ns = names(test.comparators[0])
+        if ns is None:
+            return None
+        op = test.ops[0]
+        if isinstance(op, ast.In):
+            return kind in ns
+        if isinstance(op, ast.NotIn):
+            return kind not in ns
+        if isinstance(op, (ast.Is, ast.Eq)) and len(ns) == 1:
+            return kind == ns[0]
+        if isinstance(op, (ast.IsNot, ast.NotEq)) and len(ns) == 1:
+            return kind != ns[0]
+        return None
+    if isinstance(test, ast.Call) and isinstance(test.func, ast.Name) and test.func.id == 'isinstance' \
+            and len(test.args) == 2 and ast.unparse(test.args[0]) == 'spec':
+        ns = names(test.args[1])
+        return None if ns is None else (kind in ns)
+    return None
+
+
+def _abs_value(expr, env):
+    """where a value comes from: 'spec' (the argument itself), 'fresh' (a container built by this
+    call), 'cache' (what self.cache holds for the argument), or 'other:<source>'"""
+    src = ast.unparse(expr)
+    if isinstance(expr, ast.Name):
+        if expr.id == 'spec':
+            return 'spec'
+        return env.get(expr.id, 'other:' + src)
+    if src == 'self.cache[id(spec)]':
+        return 'cache'
+    if isinstance(expr, (ast.List, ast.Dict, ast.Set, ast.Tuple, ast.ListComp, ast.DictComp, ast.SetComp)):
+        return 'fresh'
+    if isinstance(expr, ast.Call):
+        f = ast.unparse(expr.func)
+        if f == 'type(spec)' or f in ARG_KINDS:
+            return 'fresh'
+    return 'other:' + src
+
+
+def arg_mode_facts(fn, P):
+    """for each container type: the set of origins of what `mode` can return; the origins of what it
+    stores in self.cache.  Tests that `type(spec)` decides are decided, all others are explored both ways."""
+    returns = {k: set() for k in ARG_KINDS}
+    stores = set()
+
+    def run(stmts, env, kind):
+        """-> list of environments that fall through"""
+        envs = [env]
+        for st in stmts:
+            nxt = []
+            for e in envs:
+                nxt.extend(step(st, e, kind))
+            envs = nxt
+            if not envs:
+                break
+        return envs
+
+    def step(st, env, kind):
+        if isinstance(st, ast.Expr) and isinstance(st.value, ast.Constant):
+            return [env]                                       # docstring
+        if isinstance(st, (ast.FunctionDef, ast.Pass)):
+            return [env]
+        if isinstance(st, ast.Return):
+            returns[kind].add('other:None' if st.value is None else _abs_value(st.value, env))
+            return []
+        if isinstance(st, ast.Assign):
+            v = 'fresh-fn' if isinstance(st.value, ast.Lambda) else _abs_value(st.value, env)
+            env = dict(env)
+            for t in st.targets:
+                if isinstance(t, ast.Name):
+                    env[t.id] = v
+                elif ast.unparse(t).startswith('self.cache['):
+                    stores.add(v)
+                else:
+                    P.add('_ArgValuator.mode: assignment target not recognised: ' + ast.unparse(t))
+            return [env]
+        if isinstance(st, ast.Expr) and isinstance(st.value, ast.Call):
+            f = st.value.func                                  # result.update(...) / result.extend(...): in place
+            if isinstance(f, ast.Attribute) and isinstance(f.value, ast.Name) and f.attr in ('update', 'extend', 'append', 'add'):
+                if env.get(f.value.id) == 'fresh':
+                    return [env]
+            P.add('_ArgValuator.mode: call statement not recognised: ' + ast.unparse(st))
+            return [env]
+        if isinstance(st, ast.If):
+            k = _known_test(st.test, kind)
+            out = []
+            if k is not False:
+                out.extend(run(st.body, env, kind))
+            if k is not True:
+                out.extend(run(st.orelse, env, kind))
+            return out
+        P.add('_ArgValuator.mode: statement not recognised: ' + ast.unparse(st).splitlines()[0])
+        return [env]
+    for kind in ARG_KINDS:
+        for e in run(fn.body, {}, kind):
+            returns[kind].add('other:None')                    # falls off the end
+    return [(k, sorted(returns[k])) for k in ARG_KINDS], sorted(stores)
+
+
+
 def extract(ctx):
     P = ctx['P']
     find_def = ctx['find_def']
@@ -492,6 +631,12 @@ def extract(ctx):
         P.add('arg_val not found')
     else:
         arg_val_fresh = any(ast.unparse(st) == 'scope[MIN_MODE] = _ArgValuator().mode' for st in av.body)
+    am = find_def(core, 'mode', cls='_ArgValuator')
+    if am is None:
+        P.add('_ArgValuator.mode not found')
+        arg_mode_returns, arg_mode_stores = [], []
+    else:
+        arg_mode_returns, arg_mode_stores = arg_mode_facts(am, P)
     bbrepr_def = ''
     for n in core.body:
         if isinstance(n, ast.Assign) and len(n.targets) == 1 and ast.unparse(n.targets[0]) == 'bbrepr':
@@ -536,6 +681,8 @@ def extract(ctx):
         ('c20MutableDefaults', 'List (String × String)', mdefaults),
         ('c20SharedObjectWrites', 'List (String × String)', obj_writes),
         ('c20ArgValFresh', 'Bool', bool(arg_val_fresh)),
+        ('c20ArgModeReturns', 'List (String × List String)', arg_mode_returns),
+        ('c20ArgModeCacheStores', 'List String', arg_mode_stores),
         ('c20BbreprDef', 'String', bbrepr_def),
         ('c20BbreprGuard', 'List String', guard),
         ('c20GlomScope', 'List (String × String)', glom_scope),
